@@ -12,7 +12,7 @@
 (* stop with the number of the offending line.  Acceptance of the whole    *)
 (* file is the postcondition Accepted (every line was consumed).           *)
 (***************************************************************************)
-EXTENDS PatchOps, Merge7396, Equal, Scanner, JsonText, Json, TLC
+EXTENDS PatchOps, Merge7396, Equal, Scanner, JsonText, GoDec, Json, TLC
 
 CONSTANT TraceFile, Mode,      \* Mode: "value" (structural, C01..) | "ordered" (member order and literals, C05) | "bytes" (C15: the
                                \* raw output is read by the grammar of JsonText and checked for raw HTML characters)
@@ -172,9 +172,23 @@ ScanEv ==
                ELSE IF p.v.t = "obj" /\ NoDupKeys(p.v) /\ Ev.keys # Keys(p.v) THEN "the key list is not the member names in document order"
                ELSE ""
 
+\* one text decoded INTO a value of a Go type (C17): the value stored and the presence of an error must be what the
+\* decoding rules of GoDec say for that type and text (cases GoDec does not model are accepted as they are)
+GoDecEv ==
+  /\ Ev.ev = "godec"
+  /\ UNCHANGED <<doc, opts, copied>> /\ status' = "stopped"
+  /\ LET p == ParseText(Ev.text) IN
+     bad' = IF Ev.panic THEN "the codec panicked"
+            ELSE IF ~p.ok THEN (IF Ev.err THEN "" ELSE "an ill-formed text was decoded without an error")
+            ELSE LET r == Dec(Ev.t, Ev.t, p.v, Ev.un) IN
+                 IF r.e = "dc" THEN (IF PrintT("GODEC-DC") THEN "" ELSE "")      \* counted by the driver (vacuity guard)
+                 ELSE IF Ev.err # (r.e # "") THEN "an error is returned exactly when the decoding rules (GoDec.tla) say so: violated"
+                 ELSE IF ~GoSame(r.v, Ev.got) THEN "the value stored differs from what the decoding rules (GoDec.tla) say"
+                 ELSE ""
+
 TNext == /\ l <= Len(Trace) /\ bad = ""
          /\ l' = l + 1
-         /\ (Reset \/ Op \/ MergeEv \/ CreateEv \/ ComposeEv \/ EqualEv \/ ScanEv)
+         /\ (Reset \/ Op \/ MergeEv \/ CreateEv \/ ComposeEv \/ EqualEv \/ ScanEv \/ GoDecEv)
 TSpec == TInit /\ [][TNext]_tvars
 
 NoMismatch == bad = ""
